@@ -118,7 +118,7 @@ static void one(int v)
     gen_task[v].task_class = ref_tc[CID];
     /* locals (incl. reserved[]) are zero: static object, as chain_startup's memset leaves them */
 
-    size_t it = (size_t)IN_RANGE(1, 4), ch = (size_t)IN_RANGE(0, 4);
+    size_t it = IT, ch = CH;
     parsec_task_startup_iter = it; parsec_task_startup_chunk = ch;
 
     int rc = PARSEC_HOOK_RETURN_AGAIN, calls = 0;
